@@ -727,6 +727,20 @@ impl FinishedSession {
             return Ok(Some(self));
         }
 
+        // Check the changeset is still valid before anything is recorded for it: a rejected commit
+        // must not leave its delta in the rollback log. The root cannot change while we hold the
+        // write guard.
+        {
+            let shared = nomt.shared.lock();
+            if shared.root != self.prev_root {
+                anyhow::bail!(
+                    "Changeset no longer valid (expected previous root {:?}, got {:?})",
+                    self.prev_root,
+                    shared.root
+                );
+            }
+        }
+
         if let Some(rollback_delta) = self.rollback_delta {
             // UNWRAP: if rollback_delta is `Some`, then rollback must be also `Some`.
             let rollback = nomt.store.rollback().unwrap();
